@@ -73,3 +73,16 @@ Print Assumptions C17_vecsym_symvec_sym.
 Print Assumptions C17_shift_shift.
 Print Assumptions C17_size_shiftS.
 Print Assumptions C17_base_dirs_roundtrip_bounded.
+
+(* ---- UNBOUNDED: transposition by ANY axis permutation followed by the inverse permutation is the identity on flat row-major data,
+   for every rank and shape; hence moving the direction axes to the end and back (utpm2dirs / utpm2base_and_dirs / base_and_dirs2utpm)
+   loses nothing for every D, P and shape, zero extents included *)
+From AlgoV Require Import Array TransposeSpec.
+Theorem C17_transpose_inverse (T : Type) (x0 : T) (perm : seq nat) (s : shape) (data : seq T) :
+  perm_eq perm (iota 0 (size s)) -> size data = nelem s ->
+  apply_gather x0 (transpose_gather (inv_perm perm) (transpose_gather perm s).1) (apply_gather x0 (transpose_gather perm s) data) = data.
+Proof. exact: transpose_inv_data. Qed.
+Print Assumptions C17_transpose_inverse.
+Theorem C17_base_dirs_roundtrip (D P : nat) (shp : shape) : roundtrip_ok D P shp = true.
+Proof. exact: base_dirs_roundtrip. Qed.
+Print Assumptions C17_base_dirs_roundtrip.
